@@ -13,7 +13,7 @@ from vf.models.sse import EventSourceParser
 PROPERTY = "C19"
 LEVEL = "exploration"
 SHARDS = {"quick": 4, "thorough": 16}
-REQUIRED = ["eventsource-parse", "order-and-count", "ping-ignored", "asgi-stream", "wsgi-stream", "event-object-reused"]
+REQUIRED = ["eventsource-parse", "order-and-count", "ping-ignored", "asgi-stream", "wsgi-stream", "event-object-reused", "re-iterable-producer"]
 RULE = ("Random event dictionaries: every subset/order of data/event/id/retry; data built from an alphabet of CR, LF, CRLF, U+000B, U+000C, "
         "U+001C-1E, U+0085, U+2028, U+2029, BOM, spaces, colons, empty string, JSON, non-ASCII; single-line names/ids; retry >= 0; charsets "
         "utf-8 / latin-1 / gbk / cp1252 (data restricted to what the charset encodes). Each event alone through build_bytes_from_sse, and sequences "
@@ -216,7 +216,7 @@ def wsgi_stream(ctx, events, delays, charset, ping=0.02, share=False):
     judge_stream(ctx, expected_events, text, case, "wsgi" + ("|event-object-reused" if share else ""))
 
 
-REGRESSION = [{"data": "a b"}, {"data": ""}, {"data": "a\x85b", "event": "x"}, {"data": "x\x0cy\x1dz"}, {"id": "5", "retry": 10},
+REGRESSION = [{"data": "L" * 70_000}, {"data": "x" * 65_536 + "\n" + "y" * 65_537, "event": "big"}, {"data": "a b"}, {"data": ""}, {"data": "a\x85b", "event": "x"}, {"data": "x\x0cy\x1dz"}, {"id": "5", "retry": 10},
               {"data": "\n"}, {"data": "\r\n\r\n"}, {"data": " lead"}, {"data": ":colon"}, {"event": "", "data": "x"},
               {"data": "a\rb\nc\r\nd"}, {"data": "﻿bom"}]
 
@@ -262,6 +262,43 @@ def run(ctx):
         ctx.mon("event-object-reused")
         ctx.case(("shared", repr(events)))
     ctx.sample("same-dict-yielded-repeatedly", {"events": [{"data": "tick", "event": "t"}] * 3})
+    # one response object over a RE-ITERABLE producer (a list / an object with __aiter__) answers two requests in a row
+    from baize import asgi, wsgi
+    import baize.wsgi.responses as R
+    from baize.concurrency import ThreadPoolExecutor
+
+    class AsyncList:
+        def __init__(self, items):
+            self.items = items
+
+        def __aiter__(self):
+            async def g():
+                for e in self.items:
+                    yield dict(e)
+            return g()
+    for i in range(ctx.scale(60, 2000)):
+        events = [gen_event(rng, "utf-8") for _ in range(rng.randrange(1, 4))]
+        for iface in ("wsgi", "asgi"):
+            resp = wsgi.SendEventResponse([dict(e) for e in events], ping_interval=5) if iface == "wsgi" else asgi.SendEventResponse(AsyncList(events), ping_interval=5)
+            for use in (1, 2):
+                case = {"events": events, "iface": iface, "re_iterable_producer_use": use}
+                if iface == "wsgi":
+                    pool = ThreadPoolExecutor(max_workers=2, thread_name_prefix=f"c19r{i}_{use}_")
+                    R.SendEventResponse.thread_pool = pool
+                    try:
+                        r = drivers.run_wsgi_guarded(resp, drivers.to_environ(drivers.Req()))
+                    finally:
+                        pool.shutdown(wait=True)
+                    body, exc = r.body, r.exc
+                else:
+                    r = drivers.run_asgi(resp, drivers.to_scope(drivers.Req()))
+                    body, exc = r.body, r.exc
+                ctx.mon("re-iterable-producer")
+                if exc is not None:
+                    ctx.violation(f"exception|re-iterable-producer|{type(exc).__name__}|{iface}", case, repr(exc))
+                    continue
+                judge_stream(ctx, events, body.decode("utf-8"), case, f"{iface}|re-iterable-producer-use-{use}")
+                ctx.case(("reiter", iface, repr(events), use))
     for i in range(ctx.scale(160, 12_000)):
         cs = rng.choice(CHARSETS)
         n = rng.randrange(1, 6)
